@@ -217,6 +217,16 @@ func handcrafted() []hcase {
 	add(V, "row2 dims 65536x65536", cat([]byte{0xc6}, le32(0), le32(2), le32(65536), le32(65536)))
 	add(V, "dims 641x6700417 product 2^32+1", cat([]byte{0xc6}, le32(1), le32(7), le32(2), le32(641), le32(6700417)))
 	add(V, "dims 3x1431655765 product 2^32-1, null array", cat([]byte{0xc6}, le32(0xffffffff), le32(2), le32(3), le32(1431655765)))
+	// dimension vectors whose product wraps modulo 2^64 to the array length (only the per-step MaxInt32 guard rejects them)
+	add(V, "dims 16x2^30x2^30 product 2^64 = 0 mod 2^64, empty array", cat([]byte{0xc6}, le32(0), le32(3), le32(16), le32(1<<30), le32(1<<30)))
+	add(V, "dims 3x5x17x257x641x65537x6700417 product 2^64-1 = -1 mod 2^64, null array",
+		cat([]byte{0xc6}, le32(0xffffffff), le32(7), le32(3), le32(5), le32(17), le32(257), le32(641), le32(65537), le32(6700417)))
+	add(V, "dims 11806113x409891x7623851 product 2*2^64+1, one element",
+		cat([]byte{0xc6}, le32(1), le32(7), le32(3), le32(11806113), le32(409891), le32(7623851)))
+	add(V, "dims 968973220x49477x384773 product 2^64+4, four elements",
+		cat([]byte{0xc6}, le32(4), le32(1), le32(2), le32(3), le32(4), le32(3), le32(968973220), le32(49477), le32(384773)))
+	add(V, "dims 2^31-1 x 2^31-1 x 2^31-1 x 8 (no wrap to the length), two elements",
+		cat([]byte{0xc6}, le32(2), le32(1), le32(2), le32(4), le32(0x7fffffff), le32(0x7fffffff), le32(0x7fffffff), le32(8)))
 	add(V, "row5 mask 0x46", []byte{0x46, 7, 0, 0, 0})
 	add(V, "mask 0x46 with trailing bytes", []byte{0x46, 7, 0, 0, 0, 1, 2, 3, 4, 5})
 	add(V, "dimension count 2^31-1", cat([]byte{0xc1}, le32(0), le32(0x7fffffff)))
